@@ -510,10 +510,57 @@ pub fn minimise<L: Lane>(path: &str, out_path: &str, budget: usize) -> Result<Re
             }
         }
     }
+    // shorten the schedule: the shortest prefix of the decision list after which "always the lowest
+    // runnable task" still produces the violation; the file then pins the decisions of that execution
+    let mut prefix_note = String::new();
+    if let (Some(ci), Some(tr)) = (cur_v.conf_index, cur_v.trace.clone()) {
+        if ci < cur.confs.len() && tr.len() > 1 {
+            let try_prefix = |k: usize, tries: &mut usize| -> Option<(Scenario<L::Body>, Violation)> {
+                *tries += 1;
+                let mut c = cur.clone();
+                c.confs[ci].sched = SchedSpec { kind: SchedKind::TracePrefix, seed: cur.confs[ci].sched.seed };
+                c.confs[ci].trace = Some(tr[..k].to_vec());
+                let v = same_violation(&run_isolated::<L>(&c), &want)?;
+                // pin what was actually executed
+                let mut pinned = c.clone();
+                pinned.confs[ci].sched = SchedSpec { kind: SchedKind::Trace, seed: cur.confs[ci].sched.seed };
+                pinned.confs[ci].trace = v.trace.clone();
+                let v2 = same_violation(&run_isolated::<L>(&pinned), &want)?;
+                Some((pinned, v2))
+            };
+            // doubling search for a prefix that works, then a linear scan below it
+            let mut k = 0usize;
+            let mut found: Option<(usize, Scenario<L::Body>, Violation)> = None;
+            while k < tr.len() && tries < budget + 64 {
+                if let Some((c, v)) = try_prefix(k, &mut tries) {
+                    found = Some((k, c, v));
+                    break;
+                }
+                k = if k == 0 { 1 } else { k * 2 };
+            }
+            if let Some((k_hi, c, v)) = found {
+                let (mut best_k, mut best) = (k_hi, (c, v));
+                let lo = k_hi / 2 + 1;
+                for kk in lo..k_hi {
+                    if tries >= budget + 128 {
+                        break;
+                    }
+                    if let Some((c, v)) = try_prefix(kk, &mut tries) {
+                        best_k = kk;
+                        best = (c, v);
+                        break;
+                    }
+                }
+                prefix_note = format!("; the first {best_k} of {} recorded decisions matter, after them the lowest runnable task always runs", tr.len());
+                cur = best.0;
+                cur_v = best.1;
+            }
+        }
+    }
     rf.scenario = cur;
     rf.violation = cur_v;
     rf.minimised = true;
-    rf.note = format!("minimised with {tries} re-executions");
+    rf.note = format!("minimised with {tries} re-executions{prefix_note}");
     std::fs::write(out_path, serde_json::to_string_pretty(&rf).unwrap()).map_err(|e| format!("write: {e}"))?;
     Ok(rf)
 }
